@@ -7,6 +7,10 @@ fn usage() -> ! {
 }
 
 fn main() {
+    if let Ok(path) = std::env::var("VERIF_C04_TRACE") {
+        // child process of the C04 check: print the trace of one case and exit
+        std::process::exit(vcore::c04::trace_main(&path));
+    }
     let argv: Vec<String> = std::env::args().skip(1).collect();
     if argv.len() < 2 {
         usage();
@@ -57,6 +61,7 @@ fn main() {
         "C09" => drive::<vcore::c09::C09>(&args),
         "C13" => drive::<vcore::c13::C13>(&args),
         "C20" => drive::<vcore::c20::C20>(&args),
+        "C04" => drive::<vcore::c04::C04>(&args),
         "C15" => drive::<vcore::c15::C15>(&args),
         _ => {
             eprintln!("unknown property id {id}");
